@@ -107,6 +107,18 @@ func (st *c18st) checkAll(base []string, when string) {
 		}
 	}
 	sort.Strings(exp)
+	// tags handed out earlier must still be THE tags of their names (the registry has grown since)
+	n := 0
+	for name, first := range st.accepted {
+		if n++; n > 3000 {
+			break
+		}
+		var again *log.Tag
+		if pv, _ := catch(func() { again = log.RegisterTag(name) }); pv != nil || again != first {
+			w.Violate("C18:not-idempotent", fmt.Sprintf("%s: RegisterTag(%q) no longer returns the tag it returned when the name was first registered (registry holds %d names)", when, name, len(got)), map[string]any{"name": name})
+			break
+		}
+	}
 	w.Count("getalltags_comparisons", 1)
 	w.CountMax("max_registry_size_compared", int64(len(exp)))
 	if len(got) != len(exp) {
